@@ -30,7 +30,9 @@ RULE = ("cases = (existing query, operation, argument form, key, value); enumera
         "the call was rejected; states = distinct resulting raw queries.")
 ASSUMPTIONS = ["keys/values outside the alphabets behave like their class (texts are covered by C01/C02/C06)"]
 
-EXISTING = ["", "a=1", "a=1&a=2", "a=1&b=2&a=3", "a=&b", "a=1&&b=2", "a=1&", "a=%26%3D&b=+", "k=v;w", "%C3%A9=%E2%82%AC", "a=1&A=2", "=x&a=1"]
+EXISTING = ["", "a=1", "a=1&a=2", "a=1&b=2&a=3", "a=&b", "a=1&&b=2", "a=1&", "a=%26%3D&b=+", "k=v;w", "%C3%A9=%E2%82%AC", "a=1&A=2", "=x&a=1",
+            # keys whose stored spelling is not the one the query-part quoter would produce
+            "full%20name=x&b=2", "a;b=1&c=2", "k%2fz=1&%61=2&b=3", "a+b=1&a%2Bb=2", "%41=1&a=2"]
 KEYS = ["a", "b", "A", "", "k", "é", "a b", "&", "=", "+", ";", "%41", "a/b?", "#"]
 
 
@@ -189,6 +191,14 @@ def case_special(acc, existing, what):
         elif what.startswith("without:"):
             names = what[8:].split(",") if what[8:] else []
             got, exp = Q.parse(u.without_query_params(*names).raw_query_string), Q.without(old, names)
+        elif what in ("without_each", "without_each_encoded"):
+            # every key the URL's own .query reports, removed alone: however the key is spelled in the stored query
+            if what.endswith("encoded"):
+                u = impl.URL(base, encoded=True)
+            got, exp = [], []
+            for name in dict.fromkeys(k for k, _ in old):
+                got.append((name, Q.parse(u.without_query_params(name).raw_query_string)))
+                exp.append((name, Q.without(old, [name])))
         elif what == "bytes":
             try:
                 u.with_query(b"a=1")
@@ -255,7 +265,7 @@ def case_text(acc, existing, op, form, k, v):
 CASES = {"query": case_query, "special": case_special, "text": case_text}
 SPECIALS = ["with_query(None)", "update_query(None)", "extend_query(None)", "with_query({})", "with_query('')", "extend_query({})",
             "update_query({})", "update_query('')", "without:", "without:a", "without:a,b", "without:zz", "without:A", "without:é,k",
-            "without:", "bytes", "nested", "two_args", "arg_and_kwargs"]
+            "without:", "without_each", "without_each_encoded", "bytes", "nested", "two_args", "arg_and_kwargs"]
 
 
 def task_matrix(existing):
